@@ -12,16 +12,35 @@ from canon import canon, err_name
 from core import impl_construct, quiet
 
 
-def roundtrip(graph, target, tmpdir):
+def residue_graph(rng):
+    """what the path may hold from an earlier save: a decorated graph (or a bare primitive) whose entries - graph-level
+    metadata, same-named nodes with wider dtypes and their own metadata - must leave no trace in the next file"""
+    import nir
+    if rng.random() < 0.2:
+        return nir.Affine(weight=np.arange(6.0).reshape(2, 3), bias=np.zeros(2), metadata={"old": "affine"})
+    nodes = {}
+    for name in rng.sample(["a", "b", "n0", "n1", "lif", "in", "out", "x y"], 4):
+        nodes[name] = nir.Scale(scale=np.arange(1.0, 4.0), metadata={"stale": np.arange(3), "who": name})
+    return nir.NIRGraph(nodes=nodes, edges=[(k, k) for k in nodes],
+                        metadata={"epochs": 30, "source": "earlier-run", "nested": {"deep": np.ones((2, 2))}})
+
+
+def roundtrip(graph, target, tmpdir, residue=None):
     """write + read through a str path, a pathlib.Path or a BytesIO.  Returns
-    ("ok", g2) | ("write-rejected", exc) | ("read-failed", exc)."""
+    ("ok", g2) | ("write-rejected", exc) | ("read-failed", exc).  With `residue` the path (or buffer) already holds
+    an earlier, different NIR file when the graph is written."""
     import nir
     if target == "bytesio":
         f = io.BytesIO()
+        if residue is not None:
+            nir.write(f, residue)
+            f.seek(0)
     else:
         p = os.path.join(tmpdir, "g.nir")
         if os.path.exists(p):
             os.remove(p)
+        if residue is not None:
+            nir.write(p, residue)
         f = p if target == "str" else pathlib.Path(p)
     try:
         nir.write(f, graph)
@@ -177,7 +196,13 @@ def run(ctx):
             except Exception as e:  # noqa
                 ctx.count("construct_rejected")
                 continue
-            status, res = roundtrip(graph, target, tmpdir)
+            residue = None
+            if target != "bytesio" and rng.random() < 0.35:
+                import random as _random
+                case["residue_seed"] = rng.randrange(2 ** 32)       # the path already holds an earlier, different file
+                residue = residue_graph(_random.Random(case["residue_seed"]))
+                ctx.count("path_held_an_earlier_file")
+            status, res = roundtrip(graph, target, tmpdir, residue=residue)
             ctx.count(status)
             # correspondence: the model's file tree / rejection and the model's read-back
             c1 = {"op": "write", "graph": g, "version": "v"}
